@@ -66,8 +66,16 @@ fn get_node_cover_range_impl(
         SyntaxKind::Equation => Mode::Math,
         _ => mode,
     };
+    let mut at_hash = false;
     for child in node.children() {
-        if let Some(res) = get_node_cover_range_impl(range.clone(), child, mode) {
+        // An expression embedded in math with `#` is code, as in `convert_math`.
+        let child_mode = if at_hash && mode == Mode::Math {
+            Mode::Code
+        } else {
+            mode
+        };
+        at_hash = child.kind() == SyntaxKind::Hash;
+        if let Some(res) = get_node_cover_range_impl(range.clone(), child, child_mode) {
             return Some(res);
         }
     }
